@@ -54,7 +54,9 @@ extern "C" long strtol(const char *s, char **end, int base) {
   }
   return v;
 }
-double pstrtod(const char *nptr, char **endptr) { return nondet_double(); }
+// pstrtod (C18 units): records the spelling it is handed
+static std::string g_pstrtod_arg; static int g_pstrtod_calls;
+double pstrtod(const char *nptr, char **endptr) { g_pstrtod_calls++; g_pstrtod_arg = nptr; return nondet_double(); }
 // ---- get_literal (callee, replaced by its contract): with no suffix following, the token is passed through unchanged
 static int g_lit_token; static long long g_lit_value; static int g_lit_calls; static size_t g_lit_len;
 CPPToken CPPPreprocessor::get_literal(int token, YYLTYPE loc, const std::string &str, const YYSTYPE &value) {
@@ -131,5 +133,27 @@ void h_get_quoted_char() {
   OBL(g_lit_calls == 1 && g_lit_token == CHAR_TOK, "C07.get_quoted_char: a character literal is one CHAR_TOK token");
   OBL(g_lit_value == (long long)(signed char)unit, "C07.get_quoted_char: a character literal has the value of its code unit as a (signed) char: '\\xff' is -1, 'a' is 97");
   OBL(g_pos == vin_in_len && g_errors == 0, "C07.get_quoted_char: exactly the characters of the literal are consumed and no error is reported");
+  VU_REACHED();
+}
+
+// ---- a floating literal without exponent: digits with one period (".5", "5.", "1.25"): one REAL token whose value is what
+// pstrtod makes of exactly the spelling in the source
+void h_get_number_real() {
+  make_input();
+  int dots = 0, digits = 0;
+  for (int i = 0; i < VU_IN_MAX; i++) if (i < vin_in_len) {
+    int c = vin_in[i];
+    __CPROVER_assume(c == '.' || (c >= '0' && c <= '9'));
+    if (c == '.') dots++; else digits++;
+  }
+  __CPROVER_assume(dots == 1 && digits >= 1);
+  g_pp_obj._unget = '\0'; g_errors = 0; g_lit_calls = 0; g_pstrtod_calls = 0;
+  g_pp_obj.get_number(vin_in[0]);
+  OBL(g_lit_calls == 1 && g_lit_token == REAL, "C18.get_number: digits with a period are one REAL token, also when the literal starts with the period (.5)");
+  __CPROVER_assume(!g_pstrtod_arg._trunc);
+  bool same = g_pstrtod_calls == 1 && g_pstrtod_arg._n == (size_t)vin_in_len;
+  for (int i = 0; i < VU_IN_MAX; i++) if (i < vin_in_len && g_pstrtod_arg._d[i] != (char)vin_in[i]) same = false;
+  OBL(same, "C18.get_number: the value of a floating literal is pstrtod of exactly its spelling in the source");
+  OBL(g_pos == vin_in_len && g_errors == 0, "C18.get_number: exactly the characters of the literal are consumed and no error is reported");
   VU_REACHED();
 }
